@@ -15,7 +15,7 @@ import itertools
 import numpy as np
 
 from vf import runner, pipeline
-from vf.denote import den_point, den_expr
+from vf.denote import den_point, den_expr, registered_functions
 from vf.solverstub import CvxStub, MosekStub
 from vf.refs import classes as R
 from vf.props import c01
@@ -255,7 +255,7 @@ def prog(env, case):
         m.pep = pep
         c01.check_certificate(env, m, tau, stub, dict(fclass=name, backend='cvxpy'), kpool='kkt0', pid="C09")
     # (2) a real run is a feasible point of the model
-    leaf_functions = [f for f in Function.list_of_functions if f.get_is_leaf() and (f.list_of_points or hasattr(f, 'T'))]
+    leaf_functions = [f for f in registered_functions() if f.get_is_leaf() and (f.list_of_points or hasattr(f, 'T'))]
     functions = []
     for idx, f in enumerate(leaf_functions):
         if not f.list_of_points and not f.list_of_class_constraints:
@@ -269,7 +269,7 @@ def prog(env, case):
     run = assign_run(env, functions)
     # hypotheses: initial conditions and user constraints of the example, side conditions recorded by the steps
     hyp = list(pep.list_of_constraints)
-    for f in Function.list_of_functions:
+    for f in registered_functions():
         hyp += list(f.list_of_constraints)
     for c in hyp:
         v = run.expr(c.expression)
@@ -297,7 +297,7 @@ def prog(env, case):
     #     of the recurrences stated in the example's docstring, on the same real member from the same starting point
     if name in DOCUMENTED and pep.list_of_points and pep.list_of_performance_metrics:
         x0v = run.point(pep.list_of_points[0])[0]
-        stat = [f_.list_of_stationary_points[0][0] for f_ in Function.list_of_functions if f_.list_of_stationary_points]
+        stat = [f_.list_of_stationary_points[0][0] for f_ in registered_functions() if f_.list_of_stationary_points]
         xsv = run.point(stat[0])[0] if stat else None
         ref = documented(name, vals, case['n'], functions[0][1], x0v, fams=[fm for _, fm in functions], xs=xsv,
                          starts=[run.point(p_)[0] for p_ in pep.list_of_points])
